@@ -40,6 +40,7 @@ class Mir:
         self.fns = {}      # header name -> Fn
         self.consts = {}   # const name -> Fn (body computing _0)
         self.by_last = {}
+        self.closures = {}
         self.load(path)
 
     def load(self, path):
@@ -62,11 +63,16 @@ class Mir:
                     if kind == 'fn':
                         cur.ret = m.group(5)
                         cur.params = self.parse_params(m.group(4))
+                        if name in self.fns:
+                            continue      # const fn: second copy is the 'MIR FOR CTFE' body; keep the runtime one (body still parsed into cur, unused)
                         self.fns[name] = cur
                         last = name.split('::')[-1]
                         if last.startswith('{closure'):
                             last = '::'.join(name.split('::')[-2:])
                         self.by_last.setdefault(last, []).append(cur)
+                        if cur.params:
+                            cm = re.search(r'\{closure@[^}]*\}', cur.params[0][1])
+                            if cm and '{closure#' in name: self.closures[cm.group(0)] = cur
                     else:
                         cur.ret = m.group(6)
                         self.consts[name] = cur
@@ -100,6 +106,34 @@ class Mir:
             m = re.match(r'^(_\d+): (.*)$', part)
             out.append((m.group(1), m.group(2)))
         return out
+
+_IMPL_CACHE = {}
+def impl_info(loc):
+    """'<impl at file:line:col: line:col>' -> (trait or None, self type base name), read from the source line"""
+    if loc in _IMPL_CACHE: return _IMPL_CACHE[loc]
+    res = (None, None)
+    m = re.match(r'^(.*?):(\d+):(\d+)', loc)
+    if m:
+        path = m.group(1)
+        for root in (REPO, REPO + '/programs/marginfi', ''):
+            fp = os.path.join(root, path) if root else path
+            if os.path.exists(fp):
+                try:
+                    lines = open(fp).read().split('\n')
+                    txt = ' '.join(lines[int(m.group(2)) - 1:int(m.group(2)) + 6])
+                    txt = txt[int(m.group(3)) - 1:]
+                    mm = re.match(r"impl\s*(<[^{]*?>)?\s*(?:([\w:]+)(?:<[^{]*?>)?\s+for\s+)?(&?[\w:]+)", txt)
+                    if mm:
+                        res = (mm.group(2).split('::')[-1] if mm.group(2) else None, mm.group(3).split('::')[-1])
+                except Exception:
+                    pass
+                break
+    _IMPL_CACHE[loc] = res
+    return res
+
+def fn_impl(f):
+    m = re.search(r'<impl at ([^>]*)>', f.name)
+    return impl_info(m.group(1)) if m else (None, None)
 
 def split_top(s, sep):
     out = []; depth = 0; cur = ''
@@ -286,6 +320,9 @@ class Engine:
             tyname = re.sub(r'<.*', '', ty).split('::')[-1]
             best2 = [f for f in (best or cands) if f.params and tyname in f.params[0][1]]
             if len(best2) == 1: return best2[0]
+            trname = re.sub(r'<.*', '', trait).split('::')[-1]
+            best3 = [f for f in cands if fn_impl(f) == (trname, tyname.lstrip('&'))]
+            if len(best3) == 1: return best3[0]
             return None
         m = re.match(r'^(.*?)(::<.*>)?$', c)
         path = m.group(1)
@@ -299,6 +336,10 @@ class Engine:
             owner = segs[-2]
             best = [f for f in cands if f.name.endswith(path) or (owner[:1].isupper() and ((f.params and owner in f.params[0][1]) or owner in f.ret))]
             if len(best) == 1: return best[0]
+            byimpl = [f for f in cands if fn_impl(f)[1] == owner and '{closure' not in f.name.split('::')[-1]]
+            if len(byimpl) == 1: return byimpl[0]
+            inherent = [f for f in byimpl if fn_impl(f)[0] is None]
+            if len(inherent) == 1: return inherent[0]
             return None
         if len(cands) == 1: return cands[0]
         return None
@@ -733,13 +774,23 @@ class Engine:
                 if not self.feasible(st.pc + [ok]):
                     raise PathEnd('panic: arithmetic overflow')
                 if self.feasible(st.pc + [z3.Not(ok)]):
-                    st.events.append(('may_panic', f'{c} overflow'))
+                    st.events.append(('may_panic', f'{c} overflow', z3.And(st.pc + [z3.Not(ok)])))
                 st.pc.append(ok)
                 return iv(r)
             if m.group(1) == 'Mul':
-                r = fdiv(a * b, W); st.events.append(('wrapping_mul', c)); return iv(r)
+                r = fdiv(a * b, W)     # operator `*`: debug_assert only -> wraps on overflow in the on-chain profile
+                ovf = z3.Or(r > I128_MAX, r < I128_MIN)
+                if not self.feasible(st.pc + [ovf]): return iv(r)
+                st.events.append(('wrapping_mul', c, z3.And(st.pc + [ovf])))
+                return iv((r - I128_MIN) % (1 << 128) + I128_MIN)
             if m.group(1) == 'Div':
-                st.pc.append(b != 0); return iv(tdiv(a * W, b))
+                if self.feasible(st.pc + [b == 0]): st.events.append(('may_panic', 'I80F48 division by zero', z3.And(st.pc + [b == 0])))
+                st.pc.append(b != 0)
+                q = tdiv(a * W, b)     # operator `/`: debug_assert only -> wraps on overflow in the on-chain profile
+                ovf = z3.Or(q > I128_MAX, q < I128_MIN)
+                if not self.feasible(st.pc + [ovf]): return iv(q)
+                st.events.append(('wrapping_div', c, z3.And(st.pc + [ovf])))
+                return iv((q - I128_MIN) % (1 << 128) + I128_MIN)
         if re.match(r'^<anchor_lang::prelude::Pubkey as PartialEq>::(eq|ne)$', c):
             a = self.deref_val(args[0]); b = self.deref_val(args[1])
             if isinstance(a, IntV) and isinstance(b, IntV):
@@ -831,6 +882,35 @@ class Engine:
             o = self.deref_val(args[0])
             if isinstance(o, EnumV):
                 return BoolV(disc_eq(o, 0 if m.group(3) == 'is_ok' else 1))
+        # ---- iterator models over fixed arrays / short lists, closures executed from their own MIR
+        mm = re.match(r'^core::slice::<impl \[.*\]>::(iter|iter_mut)$', c)
+        if mm:
+            return StructV('Iter', self.ex.fresh_name('iter'), {'__list': args[0], '__idx': 0}, lazy=False)
+        if re.match(r'^<(std|core)::slice::(Iter|IterMut)<.*> as IntoIterator>::into_iter$', c) or re.match(r'^<(Filter|Enumerate|std::iter::Filter|std::iter::Enumerate)<.*> as IntoIterator>::into_iter$', c):
+            return args[0]
+        mm = re.match(r'^<(?:std|core)::slice::(?:Iter|IterMut)<.*> as Iterator>::(filter|enumerate|position|find|any|all)(?:::<(.*)>)?$', c)
+        if mm:
+            kind = mm.group(1); it = self.deref_val(args[0])
+            if kind == 'enumerate':
+                return StructV('Enumerate', self.ex.fresh_name('enum'), {'__iter': it}, lazy=False)
+            cf = self.closure_fn(mm.group(2) or '')
+            if cf is None: return None
+            if kind == 'filter':
+                return StructV('Filter', self.ex.fresh_name('filter'), {'__iter': it, '__pred': cf.name, '__env': Cell(args[1])}, lazy=False)
+            return self.iter_search(st, kind, it, cf, args[1], by_ref=(kind == 'find'))
+        mm = re.match(r'^<(?:std::iter::)?Filter<.*> as Iterator>::(next|count)$', c)
+        if mm:
+            flt = self.deref_val(args[0]); it = flt.fields['__iter']
+            cf = self.fn_by_name(flt.fields['__pred'])
+            return self.iter_search(st, 'filter_' + mm.group(1), it, cf, flt.fields['__env'].val, by_ref=True, flt_arg=True)
+        if re.match(r'^<(?:std::iter::)?Enumerate<.*> as Iterator>::next$', c):
+            en = self.deref_val(args[0]); it = en.fields['__iter']
+            n = self.iter_len(it)
+            i = it.fields['__idx']
+            if not isinstance(n, int): return None
+            if i >= n: return EnumV('Option', 0, {})
+            it.fields['__idx'] = i + 1
+            return EnumV('Option', 1, {1: {0: StructV('tuple', 't', {0: IntV(z3.IntVal(i), 'usize'), 1: self.iter_elem_ref(it, i)}, lazy=False)}})
         # ---- list / iterator models
         if re.match(r'^core::slice::<impl \[.*\]>::iter$', c):
             lst = args[0]
@@ -916,7 +996,7 @@ class Engine:
             o = args[0]
             some = (o.disc == 1) if not isinstance(o.disc, int) else z3.BoolVal(o.disc == 1)
             if not self.feasible(st.pc + [some]): raise PathEnd('panic: unwrap on None')
-            if self.feasible(st.pc + [z3.Not(some)]): st.events.append(('may_panic', 'unwrap on None'))
+            if self.feasible(st.pc + [z3.Not(some)]): st.events.append(('may_panic', 'unwrap on None', z3.And(st.pc + [z3.Not(some)])))
             st.pc.append(some)
             return o.payload[1][0]
         if re.match(r'^<(\w+) as (Into|From)<(\w+)>>::(into|from)$', c):
@@ -931,6 +1011,78 @@ class Engine:
             return IntV(z3.If(o.disc == 1, sv.e, args[1].e), sv.ty)
         return None
 
+    def closure_fn(self, generic):
+        cm = re.search(r'\{closure@[^}]*\}', generic or '')
+        if not cm: return None
+        for mir in self.mirs:
+            if cm.group(0) in mir.closures: return mir.closures[cm.group(0)]
+        return None
+
+    def fn_by_name(self, name):
+        for mir in self.mirs:
+            if name in mir.fns: return mir.fns[name]
+        return None
+
+    def iter_len(self, it):
+        lv = self.deref_val(it.fields['__list'])
+        if '__len' in lv.fields: return lv.fields['__len'].e
+        m = re.match(r'^\[(.*); (.*)\]$', lv.ty.strip())
+        if m:
+            n = m.group(2).strip()
+            if n.isdigit(): return int(n)
+            cv = self.const_val(None, n)
+            if isinstance(cv, IntV) and z3.is_int_value(z3.simplify(cv.e)): return z3.simplify(cv.e).as_long()
+        return None
+
+    def iter_elem_ref(self, it, i):
+        lst = it.fields['__list']
+        lv = self.deref_val(lst)
+        if i not in lv.fields:
+            em = re.match(r'^\[(.*); .*\]$', lv.ty.strip())
+            elty = em.group(1) if em else lv.fields.get('__elemty', '?')
+            lv.fields[i] = self.ex.fresh(elty, f'{lv.name}[{i}]')
+        return RefV(lst.cell, lst.path + (('i', i),))
+
+    def iter_search(self, st, kind, it, cf, env, by_ref, flt_arg=False):
+        """position / find / any / all / filter-next / filter-count over a fixed-length array iterator"""
+        n = self.iter_len(it)
+        if not isinstance(n, int): return None
+        i0 = it.fields['__idx']
+        preds = []
+        for k in range(i0, n):
+            ref = self.iter_elem_ref(it, k)
+            arg = RefV(Cell(ref)) if by_ref else ref
+            preds.append((k, self.closure_bool(st, cf, [RefV(Cell(env)), arg])))
+        if kind == 'any':
+            it.fields['__idx'] = n; return BoolV(z3.Or([p for _, p in preds]) if preds else z3.BoolVal(False))
+        if kind == 'all':
+            it.fields['__idx'] = n; return BoolV(z3.And([p for _, p in preds]) if preds else z3.BoolVal(True))
+        if kind == 'filter_count':
+            it.fields['__idx'] = n
+            return IntV(z3.Sum([z3.If(p, 1, 0) for _, p in preds]) if preds else z3.IntVal(0), 'usize')
+        # first match: fork on its (concrete) index
+        alts = []
+        none_before = []
+        for k, p in preds:
+            cond = z3.And(none_before + [p]) if none_before else p
+            def mk(k):
+                def f(ns, a2):
+                    it2 = self.deref_val(a2[0])
+                    if flt_arg: it2 = it2.fields['__iter']
+                    it2.fields['__idx'] = k + 1
+                    if kind == 'position': return EnumV('Option', 1, {1: {0: IntV(z3.IntVal(k), 'usize')}})
+                    return EnumV('Option', 1, {1: {0: self.iter_elem_ref(it2, k)}})
+                return f
+            alts.append((cond, mk(k)))
+            none_before = none_before + [z3.Not(p)]
+        def fnone(ns, a2):
+            it2 = self.deref_val(a2[0])
+            if flt_arg: it2 = it2.fields['__iter']
+            it2.fields['__idx'] = n
+            return EnumV('Option', 0, {})
+        alts.append((z3.And(none_before) if none_before else z3.BoolVal(True), fnone))
+        return ForkResult(alts)
+
     def deref_val(self, v):
         while isinstance(v, RefV):
             v = self.get_path(v.cell.val, v.path)
@@ -944,6 +1096,35 @@ class Engine:
         st = State(); st.pc = list(pc or [])
         st.roots = list(args); st.tickets = []
         self.push_frame(st, fn, args, None, None)
+        return self.explore(st)
+
+    def call_pure(self, st, fn, args):
+        """run a (side-effect free) callee such as an iterator closure to completion from the current path;
+        returns [(extra_pc_conds, ret_value)] over its returned paths"""
+        sub = State(); sub.pc = list(st.pc); sub.roots = []; sub.tickets = []; sub.events = []
+        self.push_frame(sub, fn, args, None, None)
+        saved = self.merge; self.merge = False
+        try:
+            res = self.explore(sub)
+        finally:
+            self.merge = saved
+        out = []
+        L = len(st.pc)
+        for r in res:
+            if r['status'] != 'return':
+                st.events.append(('may_panic', 'in closure ' + fn.name[-40:] + ': ' + r['status'][:40])); continue
+            out.append((r['pc'][L:], r['ret']))
+        return out
+
+    def closure_bool(self, st, fn, args):
+        """z3 Bool: value of a bool-returning pure closure on args"""
+        alts = []
+        for extra, ret in self.call_pure(st, fn, args):
+            c = z3.And(extra) if extra else z3.BoolVal(True)
+            alts.append(z3.And(c, ret.e))
+        return z3.simplify(z3.Or(alts)) if alts else z3.BoolVal(False)
+
+    def explore(self, st):
         work = [st]
         out = []
         def end_state(st):
@@ -1208,7 +1389,7 @@ class Engine:
             v = self.operand(st, m.group(2))
             cond = z3.Not(v.e) if m.group(1) else v.e
             if self.feasible(st.pc + [z3.Not(cond)]):
-                st.events.append(('may_panic', 'assert ' + m.group(3)[:40]))
+                st.events.append(('may_panic', 'assert ' + m.group(3)[:40], z3.And(st.pc + [z3.Not(cond)])))
             if not self.feasible(st.pc + [cond]): raise PathEnd('panic: ' + m.group(3)[:40])
             st.pc.append(cond); self.goto(st, m.group(5)); return
         m = re.match(r'^switchInt\((.*)\) -> \[(.*)\]$', s)
@@ -1269,7 +1450,28 @@ class Engine:
     def do_call(self, st, dest, callee, argstr, retbb):
         fr = st.frames[-1]; fn = fr['fn']
         args = [self.operand(st, a) for a in split_top(argstr, ',') if a.strip()]
-        v = self.model_call(st, callee, args)
+        v = None
+        for rx, sf in getattr(self, 'summaries', []):
+            if rx.search(callee):
+                v = sf(self, st, callee, args); break
+        if v is None:
+            v = self.model_call(st, callee, args)
+        if isinstance(v, ForkResult):
+            feas = [(c, f) for c, f in v.alts if (z3.is_true(z3.simplify(c)) or (not z3.is_false(z3.simplify(c)) and self.feasible(st.pc + [c])))]
+            if not feas: raise PathEnd('infeasible')
+            argstrs = [a for a in split_top(argstr, ',') if a.strip()]
+            if len(feas) == 1:
+                st.pc.append(feas[0][0]); val = feas[0][1](st, args)
+                self.assign(st, dest, val); self.goto(st, retbb); return
+            self.stats['forks'] += 1
+            forks = []
+            for c, f in feas:
+                ns = st.clone(); ns.pc.append(c)
+                a2 = [self.operand(ns, a) for a in argstrs]
+                val = f(ns, a2)
+                self.assign(ns, dest, val); self.goto(ns, retbb)
+                forks.append(ns)
+            return forks
         if v is None and not self.is_opaque(callee):
             target = self.find_fn(callee)
             if target is not None and target.blocks:
@@ -1290,6 +1492,10 @@ class Engine:
 
 class Unmergeable(Exception):
     pass
+
+class ForkResult:
+    """returned by a library model that needs to split the path: alts = [(cond, fn(state, args) -> value)]"""
+    def __init__(self, alts): self.alts = alts
 
 def block_succs(stmts):
     t = stmts[-1].rstrip(';') if stmts else ''
